@@ -79,7 +79,8 @@ impl Bin {
 // `CSIv1.pdf` (2020-07-21)
 const fn bin_limit(depth: u8) -> i32 {
     assert!(depth <= 10);
-    (1 << ((depth + 1) * 3)) / 7
+    // The shift overflows an `i32` when `depth` is 10, but the result does not.
+    ((1_i64 << ((depth + 1) * 3)) / 7) as i32
 }
 
 #[cfg(test)]
